@@ -28,9 +28,88 @@ pub fn mk_map<H: BuildHasher + Default>(entries: Vec<(Item, Pr)>, cap: usize) ->
     }
 }
 
+/// What the harnesses need from an `iter_mut` iterator of either kind.
+pub trait MutIt<'a>: Iterator<Item = (&'a mut Item, &'a mut Pr)> {
+    /// offers `next_back` / declares an exact size
+    const DOUBLE_ENDED: bool;
+    const EXACT: bool;
+    fn back(&mut self) -> Option<(&'a mut Item, &'a mut Pr)>;
+    fn exact_len(&self) -> usize;
+}
+
+impl<'a, H: BuildHasher> MutIt<'a> for priority_queue::priority_queue::iterators::IterMut<'a, Item, Pr, H> {
+    const DOUBLE_ENDED: bool = false;
+    const EXACT: bool = false;
+    fn back(&mut self) -> Option<(&'a mut Item, &'a mut Pr)> {
+        unreachable!()
+    }
+    fn exact_len(&self) -> usize {
+        unreachable!()
+    }
+}
+
+impl<'a, H: BuildHasher> MutIt<'a> for priority_queue::double_priority_queue::iterators::IterMut<'a, Item, Pr, H> {
+    const DOUBLE_ENDED: bool = true;
+    const EXACT: bool = true;
+    fn back(&mut self) -> Option<(&'a mut Item, &'a mut Pr)> {
+        self.next_back()
+    }
+    fn exact_len(&self) -> usize {
+        ExactSizeIterator::len(self)
+    }
+}
+
+/// What the harnesses need from a sorted consuming iterator of either kind.
+pub trait SortedIt: Iterator<Item = (Item, Pr)> {
+    fn back(&mut self) -> Option<(Item, Pr)>;
+    fn exact_len(&self) -> usize;
+}
+
+impl<H: BuildHasher> SortedIt for priority_queue::priority_queue::iterators::IntoSortedIter<Item, Pr, H> {
+    fn back(&mut self) -> Option<(Item, Pr)> {
+        unreachable!()
+    }
+    fn exact_len(&self) -> usize {
+        unreachable!()
+    }
+}
+
+impl<H: BuildHasher> SortedIt for priority_queue::double_priority_queue::iterators::IntoSortedIter<Item, Pr, H> {
+    fn back(&mut self) -> Option<(Item, Pr)> {
+        self.next_back()
+    }
+    fn exact_len(&self) -> usize {
+        ExactSizeIterator::len(self)
+    }
+}
+
+pub type CoreIter<'a> = priority_queue::core_iterators::Iter<'a, Item, Pr>;
+pub type CoreIntoIter = priority_queue::core_iterators::IntoIter<Item, Pr>;
+pub type CoreDrain<'a> = priority_queue::core_iterators::Drain<'a, Item, Pr>;
+
 pub trait Q: Sized + Clone {
     type H: BuildHasher + Default + Clone;
     const DOUBLE: bool;
+    type IterMut<'a>: MutIt<'a>
+    where
+        Self: 'a;
+    type Sorted: SortedIt;
+    /// the other queue kind with the same hasher
+    type Other: Q<H = Self::H>;
+
+    fn iter_mut_q(&mut self) -> Self::IterMut<'_>;
+    /// `for x in &mut q` (the `IntoIterator for &mut Queue` impl)
+    fn iter_mut_ref(&mut self) -> Self::IterMut<'_>;
+    fn into_sorted_iter_q(self) -> Self::Sorted;
+    /// into_sorted_vec / into_descending_sorted_vec
+    fn into_desc_vec(self) -> Vec<Item>;
+    /// into_ascending_sorted_vec (DoublePriorityQueue only)
+    fn into_asc_vec(self) -> Vec<Item>;
+    fn iter_q(&self) -> CoreIter<'_>;
+    fn iter_ref(&self) -> CoreIter<'_>;
+    fn into_iter_q(self) -> CoreIntoIter;
+    fn drain_q(&mut self) -> CoreDrain<'_>;
+    fn into_other(self) -> Self::Other;
 
     // ---- construction
     fn from_raw(map: Map<Self::H>, heap: Vec<usize>, qp: Vec<usize>, size: usize) -> Self;
@@ -205,13 +284,47 @@ macro_rules! common_impl {
         fn eq_q(&self, other: &Self) -> bool {
             self == other
         }
+        fn iter_mut_q(&mut self) -> Self::IterMut<'_> {
+            self.iter_mut()
+        }
+        fn iter_mut_ref(&mut self) -> Self::IterMut<'_> {
+            <&mut Self as IntoIterator>::into_iter(self)
+        }
+        fn into_sorted_iter_q(self) -> Self::Sorted {
+            self.into_sorted_iter()
+        }
+        fn iter_q(&self) -> CoreIter<'_> {
+            self.iter()
+        }
+        fn iter_ref(&self) -> CoreIter<'_> {
+            <&Self as IntoIterator>::into_iter(self)
+        }
+        fn into_iter_q(self) -> CoreIntoIter {
+            <Self as IntoIterator>::into_iter(self)
+        }
+        fn drain_q(&mut self) -> CoreDrain<'_> {
+            self.drain()
+        }
+        fn into_other(self) -> Self::Other {
+            <Self::Other as From<Self>>::from(self)
+        }
     };
 }
 
 impl<H: BuildHasher + Default + Clone> Q for Pq<H> {
     type H = H;
     const DOUBLE: bool = false;
+    type IterMut<'a> = priority_queue::priority_queue::iterators::IterMut<'a, Item, Pr, H> where Self: 'a;
+    type Sorted = priority_queue::priority_queue::iterators::IntoSortedIter<Item, Pr, H>;
+    type Other = Dq<H>;
     common_impl!();
+
+    fn into_desc_vec(self) -> Vec<Item> {
+        self.into_sorted_vec()
+    }
+    fn into_asc_vec(self) -> Vec<Item> {
+        unreachable!()
+    }
 
     fn peek_hi(&self) -> Option<(&Item, &Pr)> {
         self.peek()
@@ -242,7 +355,17 @@ impl<H: BuildHasher + Default + Clone> Q for Pq<H> {
 impl<H: BuildHasher + Default + Clone> Q for Dq<H> {
     type H = H;
     const DOUBLE: bool = true;
+    type IterMut<'a> = priority_queue::double_priority_queue::iterators::IterMut<'a, Item, Pr, H> where Self: 'a;
+    type Sorted = priority_queue::double_priority_queue::iterators::IntoSortedIter<Item, Pr, H>;
+    type Other = Pq<H>;
     common_impl!();
+
+    fn into_desc_vec(self) -> Vec<Item> {
+        self.into_descending_sorted_vec()
+    }
+    fn into_asc_vec(self) -> Vec<Item> {
+        self.into_ascending_sorted_vec()
+    }
 
     fn peek_hi(&self) -> Option<(&Item, &Pr)> {
         self.peek_max()
